@@ -1,0 +1,18 @@
+//go:build verif
+
+package json
+
+// VerifPoolState is a copy of the fields of a pooled parser state.
+type VerifPoolState struct {
+	IB, PathLen, PathCap, FirstToken, MaxRecursion int
+	QuerySatisfied                                 bool
+}
+
+// VerifPoolPeek takes one state out of the pool, copies its fields and puts it
+// back. It is compiled only with the "verif" build tag.
+func VerifPoolPeek() VerifPoolState {
+	p := parserPool.Get().(*parserState)
+	s := VerifPoolState{p.ib, len(p.currPath), cap(p.currPath), p.firstToken, p.maxRecursion, p.querySatisfied}
+	parserPool.Put(p)
+	return s
+}
